@@ -62,6 +62,8 @@ def _job(modname, task, root, cut_depth, deadline_s):
     acc = Acc()
     t0 = time.time()
     deadline = t0 + deadline_s if deadline_s else None
+    from . import concretize
+    concretize.reset_budget()
 
     def fn(eng, acc_):
         H.path(eng, acc_, task)
